@@ -559,3 +559,44 @@ def f1(ctx):
 def i3(ctx):
     from .c10 import index_presence_obligations
     return index_presence_obligations(ctx)
+
+
+@rule("C11", "I4", floor=1, kind="S",
+      desc="a text-match answered from the index needs a value to match: TextMatcher.match_indexes is an existential "
+           "over the indexed values (`any(...)`, or True only from inside the loop over them), so a component without the "
+           "property never matches - negation is applied per value inside match(), as on the path that parses the calendar; "
+           "a universal (`all`) over no values is true and returns resources that lack the property")
+def i4(ctx):
+    from .common import loop_body_nodes
+    fi = ctx.own_method(ICAL + ".TextMatcher", "match_indexes")
+    cfg = ctx.cfg(fi)
+    du = DefUse(cfg)
+    rets = [n for n in cfg.nodes if n.kind == "return"]
+    if not rets:
+        raise AnalysisError("TextMatcher.match_indexes: no return")
+    loops = [n for n in cfg.nodes if n.kind == "for"]
+    obs = []
+    for r in rets:
+        v = r.ast.value if isinstance(r.ast, ast.Return) else r.ast
+        if v is None:
+            raise AnalysisError("TextMatcher.match_indexes: bare return")
+        for o in origins(du, r, v):
+            leaf = o.leaf
+            verdict = None
+            if o.kind == "expr" and isinstance(leaf, ast.Call) and dotted(leaf.func) == "any":
+                verdict = True
+            elif o.kind == "expr" and isinstance(leaf, ast.Call) and dotted(leaf.func) == "all":
+                verdict = False
+            elif o.kind == "expr" and isinstance(leaf, ast.Constant) and leaf.value is False:
+                verdict = True
+            elif o.kind == "expr" and isinstance(leaf, ast.Constant) and leaf.value is True:
+                at = o.node or r
+                verdict = any(at.id in loop_body_nodes(cfg, lp) for lp in loops)
+            if verdict is None:
+                raise AnalysisError("TextMatcher.match_indexes: result `%s` is not a recognised form" % src(leaf if leaf is not None else v)[:60])
+            obs.append(ctx.ob(verdict, fi.qualname, "%s:%d" % (fi.module.rel, r.lineno), "index answer is existential over the values",
+                              "return %s" % src(leaf)[:50],
+                              "TextMatcher.match_indexes answers `%s`: true when the component has no value for the property at all, while the "
+                              "path that parses the calendar requires the property to be present - once a query is served from the index it "
+                              "returns components (and resources) that lack the property" % src(leaf)[:60]))
+    return obs
